@@ -62,7 +62,13 @@ CoreDocs == <<
    Obj(<<T("Polygon"), C(Arr(<<RingA3, HoleB3, HoleC3>>))>>),
    Obj(<<T("MultiPolygon"), C(Arr(<<Arr(<<RingA3, HoleC3, HoleB3>>), Arr(<<Ring1>>)>>))>>),
    Obj(<<T("LineString"), C(Arr(<<P4(1,1,2,3), P4(2,3,4,5), P2(5,5)>>)), <<"properties", Null>>>>),
-   Obj(<<T("MultiLineString"), C(Arr(<<Arr(<<P3(1,1,4), P3(2,3,5)>>), Arr(<<P2(4,4), P2(5,5)>>), Arr(<<P4(1,2,3,4), P3(2,1,6)>>)>>))>>)
+   Obj(<<T("MultiLineString"), C(Arr(<<Arr(<<P3(1,1,4), P3(2,3,5)>>), Arr(<<P2(4,4), P2(5,5)>>), Arr(<<P4(1,2,3,4), P3(2,1,6)>>)>>))>>),
+   \* foreign members whose keys need escaping, an empty key, nested objects that look like GeoJSON, strings with escapes
+   Obj(<<T("Point"), <<"a\"b\\c", Num(1)>>, C(P2(1,2)), <<"", Str("empty key")>>, <<"tab\there", Str("q\"uote\\")>>,
+         <<"nested", Obj(<<T("Polygon"), C(Arr(<<>>)), <<"properties", Obj(<<<<"properties", Null>>>>)>>>>)>>>>),
+   Obj(<<T("Feature"), <<"schema", Obj(<<<<"properties", Obj(<<<<"name", Str("string")>>>>)>>>>)>>, <<"geometry", PointD>>, <<"id", Str("a7")>>>>),
+   Obj(<<T("FeatureCollection"), <<"crs", Obj(<<<<"type", Str("name")>>, <<"properties", Obj(<<<<"name", Str("urn:x")>>>>)>>>>)>>,
+         <<"features", Arr(<<Obj(<<T("Feature"), <<"geometry", PolyD>>, <<"properties", Obj(<<<<"geometry", Num(3)>>, <<"type", Str("x")>>>>)>>>>)>>)>>, <<"bbox", Arr(<<Num(1), Num(1), Num(3), Num(3)>>)>>>>)
 >>
 \* number tokens 8 and 9 are out of range (8: valid longitude, invalid latitude; 9: invalid as both) in every table
 CircleProps(units) == <<"properties", Obj(<<<<"type", Str("Circle")>>, <<"radius", Num(5)>>, <<"radius_units", Str(units)>>>>)>>
